@@ -50,3 +50,117 @@ def run(ob, tier):
         return dict(res, verdict="counterexample", text="; ".join(problems), model={"problems": problems},
                     replay={"reproduced": rp["ran"] and rp["failed"], "path": mirrun.VERIF + "/replay/tests/c06_findings.rs", "log": rp["log"]})
     return dict(res, verdict="holds")
+
+
+# ---------------------------------------------------------------- emission order / comparison operands
+_run_c06 = run
+
+
+def _exec_diff():
+    from .. import engine
+    fn = mirrun.get_fn("command", "::diff", sig="&ConfigState, _2: &ConfigState")
+    ex = engine.Executor(fn, loop_bound=lambda f, h: 1, max_nodes=200000)
+    ev = ex.run()
+    for i, e in enumerate(ev):
+        e.seq = i
+    return fn, ex, ev
+
+
+def order(ob, tier):
+    """ConfigState::diff: for every kind of frontend, the Remove requests of the difference are
+    emitted by a loop that runs to completion before the loop emitting the Add requests starts:
+    a worker that receives Add(address) while the old frontend of that address is still there
+    rejects it, and the following Remove then leaves the address without frontend."""
+    from .. import engine
+    from .c16 import Q
+    fn, ex, ev = _exec_diff()
+    q = Q(ex.ctx)
+    res = {"paths": ex.stats["nodes"], "functions": [fn.name]}
+    ex.analyse_loops()
+    pushes = [e for e in ev if e.kind == "call" and re.search(r"Vec::<.*Request>::push$", e.callee) and e.node[1] and all(i == 0 for _, i in e.node[1])]
+    # variant built in the blocks of the innermost loop of each push
+    site = {}
+    for p in pushes:
+        hdr = p.node[1][-1][0]
+        body = ex.loops.get(hdr, set())
+        inner = {b for h, bs in ex.loops.items() if h != hdr and h in body for b in bs}
+        vs = set()
+        for bb in body - inner:
+            for st in fn.blocks[bb]["stmts"]:
+                m = re.search(r"RequestType::(\w+)\(", st)
+                if m:
+                    vs.add(m.group(1))
+        site.setdefault(hdr, {"variants": set(), "seq": p.seq, "guards": []})
+        site[hdr]["variants"] |= vs
+        site[hdr]["seq"] = min(site[hdr]["seq"], p.seq)
+        site[hdr]["guards"].append(p.guard)
+    problems, wit = [], []
+    for kind in ("HttpFrontend", "HttpsFrontend", "TcpFrontend", "UdpFrontend"):
+        rem = [h for h, s in site.items() if "Remove" + kind in s["variants"]]
+        add = [h for h, s in site.items() if "Add" + kind in s["variants"]]
+        if not rem or not add:
+            problems.append("shape: Remove%s / Add%s emission loops not found" % (kind, kind))
+            continue
+        both = set(rem) & set(add)
+        if both:
+            problems.append("Remove%s and Add%s are emitted by the same loop: an Add can reach a worker before the Remove of the entry it replaces" % (kind, kind))
+            continue
+        if max(site[h]["seq"] for h in rem) > min(site[h]["seq"] for h in add):
+            problems.append("Add%s requests are emitted before Remove%s requests" % (kind, kind))
+        wit.append(q([engine.OR(*[g for h in rem + add for g in site[h]["guards"]])])[0])
+    res["witness"] = "emission loops reachable per frontend kind: %s; %d emitting loops" % (wit, len(site))
+    res["witness_ok"] = len(wit) == 4 and all(w == "sat" for w in wit)
+    res["queries"], res["solver_s"] = q.n, round(q.secs, 2)
+    if problems:
+        return dict(res, verdict="counterexample", text="; ".join(problems), model={"problems": problems}, replay={"reproduced": False, "why": "no native replay"})
+    return dict(res, verdict="holds")
+
+
+def listeners_compared(ob, tier):
+    """ConfigState::diff, listeners present in both states: the test that decides whether a
+    listener is re-sent compares the two stored listeners themselves (`self.x_listeners[addr]`
+    with `other.x_listeners[addr]`), activation state included — a listener that differs in
+    anything must come out of the diff; comparing a normalised copy makes a difference vanish."""
+    from .. import engine
+    from .c16 import Q
+    fn, ex, ev = _exec_diff()
+    q = Q(ex.ctx)
+    res = {"paths": ex.stats["nodes"], "functions": [fn.name]}
+    problems, wit = [], []
+    for kind in ("HttpListenerConfig", "HttpsListenerConfig", "TcpListenerConfig", "UdpListenerConfig"):
+        cmps = [e for e in ev if e.kind == "call" and re.search(r"<&?(?:[\w:]*::)?%s as PartialEq>::(eq|ne)$" % kind, e.callee) and e.node[1] and all(i == 0 for _, i in e.node[1])]
+        idx = {}
+        for e in ev:
+            if e.kind == "call" and re.search(r"as (std::ops::)?Index<&.*SocketAddr>>::index$", e.callee) and kind in e.callee:
+                side = "self" if (e.args[0]["val"].ref or "").startswith("(*_1)") else "other" if (e.args[0]["val"].ref or "").startswith("(*_2)") else "?"
+                idx[e.dest] = side
+        for _ in range(3):   # plain copies of an indexed reference
+            for b in fn.blocks.values():
+                for st in b["stmts"]:
+                    m = re.match(r"^(_\d+) = (?:copy|move) (_\d+)$", st)
+                    if m and m.group(2) in idx:
+                        idx.setdefault(m.group(1), idx[m.group(2)])
+        if not cmps:
+            problems.append("shape: no %s comparison in diff" % kind)
+            continue
+        for c in cmps:
+            ops = [a["text"].split()[-1] for a in c.args]
+            sides = [idx.get(o) or idx.get((a["val"].ref or "").strip("(*)")) for o, a in zip(ops, c.args)]
+            direct = len(c.args) == 2 and sorted(x or "-" for x in sides) == ["other", "self"]
+            if not direct:
+                problems.append("%s listeners of an address present in both states are not compared as stored (a normalised / copied value takes part in the comparison: a difference can vanish from the diff)" % kind.replace("ListenerConfig", ""))
+        wit.append(q([engine.OR(*[c.guard for c in cmps])])[0])
+    res["witness"] = "listener comparisons reachable: %s" % wit
+    res["witness_ok"] = len(wit) == 4 and all(w == "sat" for w in wit)
+    res["queries"], res["solver_s"] = q.n, round(q.secs, 2)
+    if problems:
+        return dict(res, verdict="counterexample", text="; ".join(sorted(set(problems))), model={"problems": problems}, replay={"reproduced": False, "why": "no native replay"})
+    return dict(res, verdict="holds")
+
+
+def run(ob, tier):
+    if ob.get("which") == "order":
+        return order(ob, tier)
+    if ob.get("which") == "listeners_compared":
+        return listeners_compared(ob, tier)
+    return _run_c06(ob, tier)
